@@ -344,7 +344,8 @@ namespace awkward {
 
   const FormPtr
   RecordForm::getitem_field(const std::string& key) const {
-    return content(key);
+    // RecordArray::getitem_field trims the field to the record's length with a range slice
+    return content(key).get()->getitem_range();
   }
 
   const FormPtr
